@@ -73,9 +73,9 @@ ADDED = {
  "C02": " Later additions: exponent sweep, every half turn of longitude, integer degrees, source-literal positions (as C01)." + SEQ,
  "C03": " Later additions: vertices_map on all 16 direction sets, path_along_cell_side on every (from, to, include) combination, carry-chain cells (coordinates 2^k-1, 2^k, 10 1..1 for every k) at every depth." + SEQ,
  "C04": " Later additions: carry-chain cells (full cross product of the coordinates 2^k-1, 2^k, 10 1..1 in every base cell) and 32 spread interior cells per base cell at every depth." + SEQ,
- "C05": " Later additions: radius-relative centres, centres at the narrowest cells of the start depth (exhaustive search), deep-large (1e4..1e5 cells) and deep-huge (radius / cell > 5e4, ~1e6 cells) strata, band cones (cones entirely inside one latitude band, near edge at 2..60 % of the radius from each critical parallel). The former known finding KF-1 is repaired (fix f1d7abd) and no longer consulted." + SEQ,
+ "C05": " Later additions: radius-relative centres, centres at the narrowest cells of the start depth (exhaustive search), deep-large (1e4..1e5 cells) and deep-huge (radius / cell > 5e4, ~1e6 cells) strata, band cones (cones entirely inside one latitude band, near edge at 2..60 % of the radius from each critical parallel), vertex-grazing cones (rim 1.2e-3 of the centre-to-vertex distance beyond each vertex of the class cells). The former known finding KF-1 is repaired (fix f1d7abd) and no longer consulted." + SEQ,
  "C06": " Later additions: the deep-large / deep-huge / narrowest-cell / band-cone strata of C05." + SEQ,
- "C07": " Later additions: operand SIZE SWEEP (every n = 1..520 / 4000 for 7 operand shapes), merge-cascade operands (every cascade length 1..29), coverage-sized operands, LONG operands of 2^k-1, 2^k, 2^k+1 entries (k = 10..15 / 20) incl. shapes where the long operand starts first." + SEQ,
+ "C07": " Later additions: operand SIZE SWEEP (every n = 1..520 / 4000 for 7 operand shapes), merge-cascade operands (every cascade length 1..29), coverage-sized operands, LONG operands of 2^k-1, 2^k, 2^k+1 entries (k = 10..15 / 20) incl. shapes where the long operand starts first, same-number and consecutive-number cells." + SEQ,
  "C08": " Later additions: the size sweep, merge cascades and coverage-sized operands of C07 with mixed flags." + SEQ,
  "C09": " Later additions: size sweep and merge cascades through all views." + SEQ,
  "C10": " Later additions: EVERY polar ring (last index, first of the next, one generic index) of depths 12..18 (quick) / 14..29 (thorough); carry-chain NESTED cells." + SEQ,
@@ -83,7 +83,7 @@ ADDED = {
  "C12": " Later additions: deep polygons (depths to 29), longitude representations (+-2pi, +6pi, unwrapped across lon = 0), polar exact-mode polygons, vertex-count sweep (every n = 9..132 / 520, pie slices and regular n-gons)." + SEQ,
  "C13": " Later additions: deep tier (depths 9..29, ellipses 0.3..31 cells across), deep-large tier (thousands of cells across), thin rotated ellipses tens of cells long, tightness evaluated on the descendants of coarse entries. KF-1 repaired (fix f1d7abd)." + SEQ,
  "C14": " Later additions: delta_depth 5, 8, 9, 13, 17 and a sweep of every delta_depth 4..12 / 16; carry-chain cells; the two public direction helpers of lib.rs checked directly and exhaustively on every border cell x outward neighbour; huge delta_depth (21..23): internal edge, side helpers and external edge element by element; periodic coordinates." + SEQ,
- "C15": " Later additions: bulk pushes (~9000), one-tile sets, re-push SIZE SWEEP (a whole tile then every n = 1..340 / 4200 of its cells again), merge-cascade sequences (every cascade length 1..29), long scattered histories of 2^k-1..2^k+1 pushes (k = 10..16 / 20), word-size aliases (runs continued modulo 2^8, 2^16, 2^32).",
+ "C15": " Later additions: bulk pushes (~9000), one-tile sets, re-push SIZE SWEEP (a whole tile then every n = 1..340 / 4200 of its cells again), merge-cascade sequences (every cascade length 1..29), long scattered histories of 2^k-1..2^k+1 pushes (k = 10..16 / 20), word-size aliases (runs continued modulo 2^8, 2^16, 2^32), multi-block sequences (several complete blocks of different heights).",
  "C16": " Later additions: claim-2 radii up to pi; claim 3 at the NARROWEST cells of depths 0..6 / 0..8 located by exhaustive search; carry-chain cells. KF-1 repaired (fix f1d7abd)." + SEQ,
  "C17": " Later additions: exponent sweep (sphere and plane), integer degrees, float literals of the sources." + SEQ,
  "C18": " Later additions: all ordered pairs of coordinates taken from the integer literals of the current sources; every pair of values of a 12-bit window at the same offset in i and j; periodic coordinates (every v | v<<16, every 1/2/4/8-bit pattern)." + SEQ,
